@@ -77,6 +77,10 @@ T = {
     text="Generated finite-domain systems (Bool, BV3, range-bounded Int; some unsatisfiable) x goals (linear Int terms with guarded ITE, signed/unsigned BV terms, MaxSMT with integer - linear search also rational - weights over arbitrary soft clauses, MinMax/MaxMin over 2-3 terms) x optimize / boxed / lexicographic / pareto x linear|binary x SUA|incremental mixin over a brute-force solver in both enumeration orders, at level 0 and inside user push levels. Every model of the system is enumerated: the returned model must satisfy the assertions, the cost must be the optimum (lexicographic optimum; exactly the Pareto front, no duplicates), None exactly for unsatisfiable systems, and assertions / backend depth must be restored (a following user pop removes the user's level only).",
     note="Trusted: vf/brute.py as satisfiability oracle (exhaustive), vf/refsem.py for objective values. Bisection over rational weights is not generated (documented as possibly non-terminating). A routine exceeding 20 s is inconclusive.",
     technique="property-based testing against an exhaustive-enumeration optimum oracle"),
+ "C17": dict(level="exploration", design="4/C17",
+    text="Generated histories of solver-API calls (add_assertion with symbols first used at different levels, push(n), legal pop(n), solve, get_value, get_model, reset_assertions, is_sat/is_valid/is_unsat, factory shortcuts) drive SmtLibSolver attached to a strict reference SMT-LIB solver process that rejects illegal command streams and logs every command, reply and model. The process must never answer (error ...); every verdict must equal the brute-force truth of the harness' own model of the live assertions; after sat, get_model must contain every symbol of the live assertions with the logged value and satisfy them, get_value must return the logged value; no legal call may raise or block.",
+    note="Trusted: vf/refsolver.py + vf/smtref.py (strict reading of the stream, cvc5-style value syntax, reset-assertions removes declarations), vf/refsem.py. One reference process per history; a call exceeding its budget is reported as blocked (reply stream out of sync).",
+    technique="stateful property testing against a strict reference solver process (protocol conformance + differential verdicts/models)"),
 }
 
 checks, na = [], []
